@@ -218,6 +218,12 @@ impl Block for AuDecode {
                         ".au data offset {data_offset} is less than the 24 byte header"
                     )));
                 }
+                if data_offset as usize - 8 > self.src.total_size() {
+                    // We wait for the whole header. It has to fit the stream.
+                    return Err(Error::msg(format!(
+                        ".au data offset {data_offset} is larger than the stream buffer"
+                    )));
+                }
                 self.state = DecodeState::WaitingHeader(data_offset as usize);
             }
             DecodeState::WaitingHeader(data_offset) => {
